@@ -14,6 +14,7 @@ import ShapeVerif.Model.Cost
 import ShapeVerif.Model.Lexer
 import ShapeVerif.Model.Parser
 import ShapeVerif.Model.ParseCst
+import ShapeVerif.Model.Gen
 import ShapeVerif.Ref.Sem
 import ShapeVerif.Ref.Rfc8259
 import ShapeVerif.Ref.Witness
@@ -195,6 +196,8 @@ def step (line : String) : String :=
   | ["display", a] => withShape a fun a =>
       if asciiKeys a then hexOfString (display a) else "unmodelled"
   | ["echo", a] => withShape a fun a => sexp a
+  | ["gen", a] => withShape a fun a =>
+      if asciiKeys a then hexOfString (generate a) else "unmodelled"
   | ["cst", h] =>
       match textOfHex h with
       | none => "bad-text"
